@@ -195,6 +195,14 @@ def on_compose(p, r, exc, acc):
         acc.replayed += 1
         if real[0] != real[1]:
             acc.candidate(kind="pipeline-render", input=cfg(m), detail="rendered %r, documented composition gives %r" % (real[0], real[1]))
+    elif r["local"] and not any(is_n(p, f) for f in r["local"]):
+        # the same list as filter= of a def / block / <%text>, and as buffer_filters: no D, no P
+        c = cfg(m)
+        for where in ("def", "block", "text", "buffer_filters"):
+            real = realproc.call("pipeline_render_nonexpr", c, where)
+            acc.replayed += 1
+            if real[0] != real[1]:
+                acc.candidate(kind="pipeline-render-" + where, input=dict(c, where=where), detail="rendered %r, documented %r" % (real[0], real[1]))
     acc.sample(dict(cfg(m), emitted=out.concretize(m)))
 
 
@@ -223,6 +231,11 @@ if "template" in CASE:
             first = res[1][0]
             if first[0] != "Expression" or first[1] != text or first[2] != esc: bad = "expression is %%r | %%r, lexer gave %%r" %% (text, esc, first[:3])
     elif sc[0] == "unterminated" and res[0] == "ok": bad = "unterminated expression accepted"
+elif "where" in CASE:
+    from props.realops import pipeline_render_nonexpr
+    got, want = pipeline_render_nonexpr(CASE, CASE["where"])
+    print("filter list on", CASE["where"], ":", CASE["local"]); print("rendered:", repr(got)); print("documented:", repr(want))
+    if got != want: bad = "filter= / buffer_filters do not apply exactly the listed filters in order"
 else:
     from props.realops import pipeline_render
     got, want = pipeline_render(CASE)
